@@ -158,9 +158,11 @@ func (p Params[T]) Config(ctx context.Context, t *T, sources ...Source) (*Dials[
 		// the time.
 		cbch := make(chan userCallbackEvent, 64)
 		d.cbch = cbch
+		d.monDone = make(chan struct{})
 		cbmgr := callbackMgr[T]{
-			p:  &p,
-			ch: cbch,
+			p:    &p,
+			ch:   cbch,
+			done: d.monDone,
 		}
 		go cbmgr.runCBs(ctx)
 
@@ -529,9 +531,17 @@ func (d *Dials[T]) submitEventBlocking(ctx context.Context, ev userCallbackEvent
 	if d.cbch == nil {
 		return false
 	}
+	select {
+	case <-d.monDone:
+		// the monitor has exited; nothing will handle this event
+		return false
+	default:
+	}
 	verifPoint("api.enqueue")
 	select {
 	case <-ctx.Done():
+		return false
+	case <-d.monDone:
 		return false
 	case d.cbch <- ev:
 		return true
@@ -647,7 +657,9 @@ func (d *Dials[T]) monitor(
 	monCtl <-chan verifyEnable[T],
 ) {
 	defer verifPoint("mon.exited")
-	defer close(d.cbch)
+	// cbch is never closed: callers of RegisterCallback/unregister may
+	// still be sending on it. Shutdown is signalled through monDone.
+	defer close(d.monDone)
 	defer verifPoint("mon.exit")
 	skipVerify := d.params.DelayInitialVerification
 	for {
